@@ -543,7 +543,6 @@ class TestManager:
         self.temporary_folders = {}
         m = Manager()
         self.pid_queue = m.Queue()
-        self.create_root()
         pass_key = repr(self.current_pass)
 
         logging.info(f'===< {self.current_pass} >===')
@@ -551,6 +550,7 @@ class TestManager:
         if self.total_file_size == 0:
             raise ZeroSizeError(self.test_cases)
 
+        self.create_root()
         self.pass_statistic.start(self.current_pass)
         if not self.skip_key_off:
             logger = KeyLogger()
@@ -635,6 +635,10 @@ class TestManager:
             logging.info('Exiting now ...')
             self.remove_root()
             sys.exit(1)
+        except BaseException:
+            # do not leave the pass root behind when the pass ends with an error
+            self.remove_root()
+            raise
 
     def process_result(self, test_env):
         if self.print_diff:
